@@ -396,7 +396,10 @@ def r4(ctx):
     hs, he, _n, hstrand, _d = [e.id for e in unpack[0].targets[0].elts]
     ren = {ss: 'ss', se: 'se', hs: 'hs', he: 'he'}
     cons = lambda e: e['ss'] <= e['se'] and e['hs'] <= e['he']
-    adds = [c for c in walk_no_nested(f) if isinstance(c, ast.Call) and isinstance(c.func, ast.Attribute) and c.func.attr == 'add' and src(c.func.value) == 'hits']
+    # the result set is the local the function returns (whatever it is called)
+    returned = {n for r in walk_no_nested(f) if isinstance(r, ast.Return) and r.value is not None for n in names_in(r.value)}
+    adds = [c for c in walk_no_nested(f) if isinstance(c, ast.Call) and isinstance(c.func, ast.Attribute) and c.func.attr == 'add' and isinstance(c.func.value, ast.Name) and c.func.value.id in returned]
+    hitsvar = adds[0].func.value.id if adds else None
     mod = ctx.ix.module(FEATURES)
     if len(adds) != 1:
         raise AnalysisError('findFeaturesBetween: hits.add not found')
@@ -430,14 +433,15 @@ def r4(ctx):
         t = st[0][0]
         ncase, bad = check_pred(t, lambda e: e['none'] or e['same'], symbols=[], atom_name=lambda x: {'strand is None': 'none', f'strand == {hstrand}': 'same'}.get(src(x)), extra_bools=['none', 'same'])
         ctx.emit('C16-R4', not bad, FEATURES, t, f'strand filter `{src(t)}` == no strand requested or same strand' if not bad else f'strand filter differs: {bad[0]}', key='between:strand-filter')
-    ends = [c for c in walk_no_nested(f) if isinstance(c, ast.Call) and isinstance(c.func, ast.Attribute) and c.func.attr == 'update' and src(c.func.value) == 'hits']
+    ends = [c for c in walk_no_nested(f) if isinstance(c, ast.Call) and isinstance(c.func, ast.Attribute) and c.func.attr == 'update' and src(c.func.value) == hitsvar]
     pts = sorted(src(c.args[0]) for c in ends)
     ok = len(ends) == 2 and any(ss in p_ for p_ in pts) and any(se in p_ for p_ in pts)
     ctx.emit('C16-R4', ok, FEATURES, f, 'range query also unions the point queries at both ends of the range', key='between:end-point-union', nontrivial=False)
     # point query
     g = methods.get('_findFeaturesAt')
     coord = g.args.args[2].arg
-    ssx = [s for s in walk_no_nested(g) if isinstance(s, ast.Assign) and src(s.targets[0]) == 's' and isinstance(s.value, ast.Call) and (dotted(s.value.func) or '').endswith('searchsorted')]
+    ssx = [s for s in walk_no_nested(g) if isinstance(s, ast.Assign) and isinstance(s.value, ast.Call) and (dotted(s.value.func) or '').endswith('searchsorted')
+           and len(s.value.args) >= 2 and coord in names_in(s.value.args[1]) and 'startCoordinates' in src(s.value.args[0])]
     okall = bool(ssx)
     for s_ in ssx:
         c = s_.value
@@ -446,12 +450,13 @@ def r4(ctx):
         good = ('startCoordinates' in src(c.args[0])) and ((lf == Lin({coord: 1}, 1) and side == ['left']) or (lf == Lin({coord: 1}) and side == ['right']))
         okall = okall and good
     ctx.emit('C16-R4', okall, FEATURES, ssx[0] if ssx else g, f'point query: candidate range ends at the number of features with start <= coordinate ({len(ssx)} searchsorted sites)', key='at:start-bound')
-    flt = [c for c in walk_no_nested(g) if isinstance(c, ast.Compare) and coord in names_in(c) and '[1]' in src(c.left)]
+    flt = [c for c in walk_no_nested(g) if isinstance(c, ast.Compare) and len(c.ops) == 1 and coord in names_in(c) and
+           (src(c.left).endswith('[1]') or src(c.comparators[0]).endswith('[1]'))]
     n = 0
     okf = True
     for c in flt:
         n += 1
-        ncase, bad = check_pred(c, lambda e: e['end'] >= e['c'], symbols=['end', 'c'], atom_name=lambda x: 'c' if src(x) == coord else ('end' if src(x).endswith('[1]') else None))
+        ncase, bad = check_pred(c, lambda e: e['end'] >= e['c'], symbols=['end', 'c'], atom_name=lambda x: None if isinstance(x, ast.Compare) else ('c' if src(x) == coord else ('end' if src(x).endswith('[1]') else None)))
         okf = okf and not bad
     ctx.emit('C16-R4', okf and n >= 3, FEATURES, flt[0] if flt else g, f'point query: {n} end filters, all `feature end >= coordinate` (closed interval)', key='at:end-filter')
 
